@@ -316,7 +316,7 @@ def build_design(seed, index, flags, work, race=False, tags=None, path_prefix=No
         genv = goenv()
         if path_prefix:
             genv["PATH"] = path_prefix + os.pathsep + genv.get("PATH", "")
-        p = subprocess.run(cmd, capture_output=True, text=True, env=genv, timeout=180, preexec_fn=designs.limited())
+        p = subprocess.run(cmd, capture_output=True, text=True, env=genv, timeout=900, preexec_fn=designs.limited())
         rep = json.loads(p.stdout)
     except Exception as ex:
         b.error = "genrun: %r" % ex
